@@ -276,6 +276,18 @@ C06capOnly(st, q) ==
      \/ (a.prio > 0 /\ \A d \in DOMAIN after : after[d] <= al.maxutil * al.reserved[d]))
       => q[k][2] # UnplacedRank
 
+(* the queue with "not ranked" kept only where the DECLARED cap justifies it    *)
+(* (C07/C08 exempt an instance "over its utilisation cap": over the cap the     *)
+(* allocation document declares, not over one the code kept by mistake)         *)
+CapJustified(st, q, k) ==
+  LET a == QApp(st, q[k]) al == st.allocs[a.alloc]
+      after == CumDemand(st, q, k, TRUE) IN
+  al.maxutil # NoNum /\ (a.prio = 0 \/ \E d \in DOMAIN after : after[d] > al.maxutil * al.reserved[d])
+FixQueue(st, q) ==
+  [k \in DOMAIN q |->
+     IF q[k][2] = UnplacedRank /\ q[k][1] \in DOMAIN st.apps /\ ~CapJustified(st, q, k)
+     THEN <<q[k][1], st.allocs[QApp(st, q[k]).alloc].rank, q[k][3]>> ELSE q[k]]
+
 C06ex(st, q) == /\ Len(q) >= 3
                 /\ Cardinality({QApp(st, q[i]).alloc : i \in DOMAIN q}) >= 2
                 /\ Cardinality({QApp(st, q[i]).prio : i \in DOMAIN q}) >= 2
